@@ -111,4 +111,28 @@ PROPS = {
             {"pkg": S, "test": "TestVerifC07", "quick": (16, 1000), "thorough": (16, 20000), "timeout_q": 1500},
         ],
     },
+    "C05": {
+        "level": "exploration",
+        "claim": ("Arbitrary byte strings and structure-aware mutations of generated valid messages (truncate, extend, bit flips, "
+                  "hostile constants, 16-bit length fields set to 0/max/off-by-one, spliced and duplicated TLVs) are fed to "
+                  "ParseBGPMessage, ParseBGPBody, GetPathAttribute+DecodeFromBytes, NLRIFromSlice for all 26 families and "
+                  "DecodeCapability under generated option combinations. In the target: no panic, caller's buffer unchanged "
+                  "(input carved from a poisoned buffer with cap==len, so any read past the declared message fails visibly), "
+                  "result independent of bytes following the declared message, decoded element counts bounded by the input "
+                  "size, and every returned value - also one returned with a non-fatal error - renders (String, JSON), "
+                  "measures, validates and re-serialises without panicking. Thorough tier adds native coverage-guided fuzzing "
+                  "of the same target."),
+        "note": ("Go is memory safe: 'over-read' means reading outside the declared message inside the backing array, which the "
+                 "cap==len carving turns into a bounds panic; hangs are caught by the test timeout; allocation is bounded via "
+                 "element counts, not measured in bytes."),
+        "technique": "property-based testing (rapid) with structure-aware mutators + native go fuzzing (thorough), invariant oracles inside the target",
+        "rule": ("a case is an entry point, a recipe (seed messages + mutation script) or raw bytes; non-trivial when the input "
+                 "reaches a type-specific decoder (a message/attribute/NLRI/capability value is returned); distinct by (entry, "
+                 "message type or attribute/NLRI/capability kind, outcome class)"),
+        "assumptions": [],
+        "units": [
+            {"pkg": B, "test": "TestVerifC05", "quick": (16, 30000), "thorough": (16, 1500000)},
+            {"pkg": B, "kind": "fuzz", "test": "FuzzVerifC05", "fuzz_seconds": 600},
+        ],
+    },
 }
